@@ -25,7 +25,7 @@ def _bp(rng, tc, edge_p=0.35, lo_key="T_min_seg", hi_key="T_max_seg"):
     return float(rng.uniform(lo, hi))
 
 
-def draw_coefficients(rng, shape, tc, edge_p=0.35, segment_box_only=False):
+def draw_coefficients(rng, shape, tc, edge_p=0.35, segment_box_only=False, reversed_p=0.0):
     """A coefficient document inside the optimiser's box for `shape` (incl. the bounds themselves)."""
     inter = float(rng.uniform(0.5, 100)) if rng.random() < 0.9 else float(rng.uniform(-50, 0))   # net-metered base load
     def slope():
@@ -55,6 +55,8 @@ def draw_coefficients(rng, shape, tc, edge_p=0.35, segment_box_only=False):
         if rng.random() < 0.1:
             b = a
         a, b = min(a, b), max(a, b)
+        if reversed_p and rng.random() < reversed_p:
+            a, b = b, a            # both balance points share one box: a document may name them in reversed order (the kernel re-orders the pair)
         c.update(hdd_bp=a, hdd_beta=slope(), cdd_bp=b, cdd_beta=slope())
         if shape.endswith("smooth"):
             c.update(hdd_k=pct(), cdd_k=pct())
